@@ -2261,3 +2261,96 @@ PROPERTY SigMatchesAfterPurge
 
 
 REGISTRY.update({'C15': c15})
+
+
+# ---------------------------------------------------------------------------
+# C16: several databases and a router (Route.tla)
+
+def c16(tier, replay=None):
+    import random
+    from concurrent.futures import ThreadPoolExecutor
+    from .common import seed
+    from .engines import route as RT
+    from .tlc import run_tlc, require_ok, write_cfg
+    report = Report('C16', tier)
+    maxlen = 2 if tier == 'quick' else 3
+    cfg = write_cfg('MC_Route.cfg', '''
+SPECIFICATION Spec
+CONSTANTS
+  MaxLen = %d
+  EmitRecords = TRUE
+CONSTRAINT Constraint
+INVARIANT OnlyRoutedModels
+INVARIANT Converged
+PROPERTY OtherDatabaseUntouched
+''' % maxlen)
+    res = require_ok(run_tlc('Route', cfg, workers=8, timeout=3000), 'Route.tla')
+    report.add_tlc('Route MaxLen=%d (all 8 routings x 2 orders)' % maxlen, res.stats())
+    recs = res.records
+    rng = random.Random(seed() * 733 + 16)
+    # stratify by (number of models on `other`, mutation kinds)
+    strata = {}
+    for r in recs:
+        n_other = sum(1 for d in r['route'].values() if d == 'other')
+        kinds = tuple(sorted(set(mu['k'] for mu in r['evo'])))
+        strata.setdefault((n_other, kinds, len(r['evo'])), []).append(r)
+    for k in strata:
+        rng.shuffle(strata[k])
+    limit = 70 if tier == 'quick' else 900
+    chosen = []
+    while len(chosen) < limit and any(strata.values()):
+        for k in sorted(strata):
+            if strata[k] and len(chosen) < limit:
+                chosen.append(strata[k].pop())
+    with ThreadPoolExecutor(16) as ex:
+        observations = list(ex.map(lambda ir: RT.replay(ir[1], ir[0]), enumerate(chosen)))
+    nontrivial = set()
+    for rec, obs in zip(chosen, observations):
+        report.coverage['evaluations'] += 1
+        evo = ['%s(%s)' % (mu['k'], mu['m']) for mu in rec['evo']]
+        where = {'route': rec['route'], 'evolution': evo, 'order': rec['order']}
+        if obs['errors']:
+            report.notes.append('setup failed: %r' % (obs['errors'][:1],))
+            continue
+        split = len(set(rec['route'].values())) == 2
+        both = len(set(rec['route'][m['m'][0]] for m in rec['evo'])) == 2
+        if split and both:
+            nontrivial.add(json_key(rec['evo'], json_key(rec['route'], rec['order'])))
+        for st in obs['steps']:
+            report.coverage['traces_validated_against_impl'] += 1
+            d = st['db']
+            exp = {n.lower(): {'fields': sorted(v['fields']), 'maxlen': v['maxlen']}
+                   for n, v in (rec['expected'].get(d) or {}).items()} \
+                if isinstance(rec['expected'].get(d), dict) else {}
+            detail = dict(where, step=st, expected=exp)
+            fp = {'mutations_for_both_databases': both,
+                  'kinds': sorted(set(mu['k'] for mu in rec['evo']))}
+            if st['outcome'] != 'ok':
+                report.fail(dict(fp, **{'class': 'evolving-one-database-failed',
+                                        'error': (st['error'] or '').split(':')[0][:50]}), detail)
+                continue
+            if st['evolved'] != exp:
+                wrong = sorted(set(st['evolved']) - set(exp))
+                report.fail(dict(fp, **{'class': 'schema-not-what-the-router-allows',
+                                        'foreign_tables': bool(wrong)}), detail)
+            if st['signature'] != sorted(rec['expected'].get(d) or {}):
+                report.fail(dict(fp, **{'class': 'signature-not-what-the-router-allows'}), detail)
+            if st['other_changed']:
+                report.fail(dict(fp, **{'class': 'other-database-modified'}), detail)
+        report.sample({'route': rec['route'], 'evolution': evo, 'order': rec['order'],
+                       'outcomes': [s['outcome'] for s in obs['steps']]})
+    report.coverage['distinct_nontrivial'] = len(nontrivial)
+    report.coverage['exhaustive'] = len(chosen) == len(recs)
+    report.coverage['rule'] = (
+        'Route.tla: one app with three models, every assignment of models to two databases (8) x either order of '
+        'evolving them x every valid evolution of <= %d mutations (AddField, ChangeField, RenameModel to a new table, '
+        'DeleteModel, incl. mutations on the renamed model); TLC checks OnlyRoutedModels, OtherDatabaseUntouched, '
+        'Converged. %d of %d scenarios were replayed on a real two-database project with a router, each database '
+        'evolved in turn through `evolve --database X --execute` / Evolver(database_name=X); after each run the '
+        'evolved database must hold exactly the routed models at their target state, its stored signature list '
+        'exactly those models, the evolution be recorded there, and the other database (tables, rows, bookkeeping) be '
+        'unchanged. Non-trivial = models on both databases and mutations for both.' % (maxlen, len(chosen), len(recs)))
+    return report.finish()
+
+
+REGISTRY.update({'C16': c16})
